@@ -856,6 +856,31 @@ func (g *guardRules) cond(x *Exec, cond ast.Expr, truth bool, s St) ([]St, bool)
 	}
 	info := x.Fn.Info
 	try := func(ge, ce ast.Expr) ([]St, bool) {
+		// a local that holds the getter's result (code := res.Status.GetCode()), assigned once
+		if id, isID := ast.Unparen(ge).(*ast.Ident); isID {
+			if o := identObj(info, id); o != nil {
+				var def ast.Expr
+				ndef := 0
+				root := x.Fn
+				for root.Outer != nil {
+					root = root.Outer
+				}
+				ast.Inspect(root.Body, func(m ast.Node) bool {
+					if as, ok := m.(*ast.AssignStmt); ok && len(as.Lhs) == len(as.Rhs) {
+						for i, l := range as.Lhs {
+							if identObj(info, l) == o {
+								ndef++
+								def = as.Rhs[i]
+							}
+						}
+					}
+					return true
+				})
+				if ndef == 1 && def != nil {
+					ge = def
+				}
+			}
+		}
 		call, ok := ast.Unparen(ge).(*ast.CallExpr)
 		if !ok || len(call.Args) != 0 {
 			return nil, false
